@@ -94,7 +94,7 @@ def h_dt_data(f, N, mode, period=None, txt=None, cols='list'):
     return body
 
 
-def h_ct_data(f, ns, mode, overlap=False, closed=False):
+def h_ct_data(f, ns, mode, overlap=False, closed=False, first_all=False, dup=False):
     f = T(f)
     vs = sorted(variables(f))
 
@@ -103,6 +103,23 @@ def h_ct_data(f, ns, mode, overlap=False, closed=False):
         res = []
         s = ct.make_spec(mode, 'out = ' + text(f), vs)
         sigs = {v: ct.signal(env, v, n, 'zero') for v, n in zip(vs, ns)}
+        if dup:
+            # the same variable named in two [name, samples] pairs of ONE call (accepted silently): whatever the monitor makes of it, the
+            # caller's lists stay as they were, and a second call on the same objects does the same
+            v0 = vs[0]
+            args = [[v0, [list(p) for p in sigs[v0][:1]]], [v0, [list(p) for p in sigs[v0][1:]]]] + [[v, [list(p) for p in sigs[v]]] for v in vs[1:]]
+            before = snap(args)
+            call = (lambda: s.evaluate(*args)) if mode == 'offline' else (lambda: s.update(*args))
+            for rnd in (1, 2):
+                try:
+                    call()
+                except Exception as e:
+                    import rtamt
+                    if not isinstance(e, rtamt.RTAMTException):
+                        raise
+                same(A, 'data-dup@%d' % rnd, before, args, res)
+            env.observe('out', 0)
+            return res
         if mode == 'offline':
             args = [[v, [list(p) for p in sigs[v]]] for v in vs]
             if closed:
@@ -121,7 +138,7 @@ def h_ct_data(f, ns, mode, overlap=False, closed=False):
                 for i in range(len(r1)):
                     res.append(('repeat@%d' % i, A.And(A.eq(r1[i][0], r2[i][0]), A.eq(r1[i][1], r2[i][1]))))
         else:
-            cut = [max(1, n // 2) for n in ns]
+            cut = [max(1, n // 2) for n in ns] if not first_all else list(ns)      # first_all: the whole signal in the first update(), nothing in the second
             for part in (0, 1):
                 # overlap: the second batch starts with (a copy of) the sample the first batch ended with - the usage the
                 # online operators explicitly allow for ("if buf[-1][0] == sample[0][0]: skip it")
@@ -290,11 +307,17 @@ def obligations(tier, rng):
                 continue
             out.append(ob('C11', 'ct_data', 'data/ct-%s/%s' % (mode, text(f)), f=f, ns=[2, 2] if two else [3], mode=mode,
                           max_paths=20000, wall=600))
+            if mode == 'offline':
+                out.append(ob('C11', 'ct_data', 'data/ct-offline-dup-name/%s' % text(f), f=f, ns=[2, 2] if two else [3], mode=mode, dup=True, max_paths=20000, wall=600))
             if mode == 'offline' and (two or f[0] in ('once', 'always_t', 'not')):
                 out.append(ob('C11', 'ct_data', 'data/ct-offline-inf-closed/%s' % text(f), f=f, ns=[2, 2] if two else [3], mode=mode, closed=True,
                               max_paths=20000, wall=600))
             if mode == 'online':
                 out.append(ob('C11', 'ct_data', 'data/ct-online-overlap/%s' % text(f), f=f, ns=[2, 2] if two else [3], mode=mode, overlap=True,
+                              max_paths=20000, wall=600))
+                out.append(ob('C11', 'ct_data', 'data/ct-online-dup-name/%s' % text(f), f=f, ns=[2, 2] if two else [3], mode=mode, dup=True, max_paths=20000, wall=600))
+                # the whole signal in the FIRST update() (the buffers of the operations are still empty), then an empty batch
+                out.append(ob('C11', 'ct_data', 'data/ct-online-first-all/%s' % text(f), f=f, ns=[2, 2] if two else [3], mode=mode, first_all=True,
                               max_paths=20000, wall=600))
     pairs = [(('once_t', X, 0, 1), ('historically_t', X, 0, 1)), (('prev', X), ('prev', X)), (('since', X, Y), ('once', X)),
              (('rise', X), ('add', X, Y))]
